@@ -219,6 +219,17 @@ def gen_pairs(ctx, rng, count, ref=None):
             delta = datetime.timedelta(seconds=rng.choice([0.01, eps / 2, eps + 0.2, 2, 5, float(R)]))
             kind = "loopedge"
             opts["start"] = ast_.strftime("%Y-%m-%dT%H:%M:%SZ")
+        if i % 16 == 13:
+            # month boundaries inside a year: `start=year` (also as the server default) must keep resolving to
+            # 1 January while the clock passes the first of another month (leap day included)
+            y, mo = rng.choice([(2024, 2), (2023, 2), (2024, 6), (2023, 11), (2024, 12), (2023, 4)])
+            first_next = datetime.datetime(y + (mo == 12), mo % 12 + 1, 1, tzinfo=datetime.timezone.utc)
+            if mo == 12:
+                first_next = datetime.datetime(y, 12, 1, tzinfo=datetime.timezone.utc)   # stay inside the year
+            t1 = first_next - datetime.timedelta(seconds=rng.choice([0.5, 2, 7, 30]))
+            delta = datetime.timedelta(seconds=rng.choice([1, 8, 45, 3600, 90000]))
+            kind = "monthedge"
+            opts["start"] = "year"
         if i % 16 == 5:
             # a symbolic start that rolls over between the two requests (ledger: publishTime may step back)
             day = datetime.datetime(t1.year, t1.month, max(2, t1.day), tzinfo=datetime.timezone.utc)
